@@ -431,6 +431,7 @@ d = pathlib.Path(tempfile.mkdtemp())
 rs = np.random.default_rng(0)
 data = (rs.normal(size=(ns, nc)) * 40).astype(np.int16)
 data[ns // 3: ns // 3 + 50, :nsites] = 30000          # a saturated stretch
+data[5:45, :nsites] = 30000                            # and one inside the taper at the very start of the file
 data[:, -1] = rs.integers(0, 65535, ns).astype(np.uint16).astype(np.int16)
 wrot_matrix = {bool(params.get('wrot_matrix'))}
 gains = [[(500, 250), (250, 125), (1000, 500)][i % 3] for i in range(nsites)] if wrot_matrix else [(500, 250)] * nsites
@@ -493,6 +494,9 @@ else:
             bad.append(('1 worker raised', repr(e)))
     sat = np.load(o / '_iblqc_ephysSaturation.samples.npy')
     if sat.shape[0] != ns: bad.append(('saturation length', sat.shape))
+    else:
+        for a_, b_ in ((5, 45), (ns // 3, ns // 3 + 50)):
+            if not np.all(sat[a_:b_]): bad.append(('railed samples %d..%d are not all flagged in the saturation QC file' % (a_, b_), int(np.sum(sat[a_:b_])), b_ - a_))
     rms = np.load(o / '_iblqc_ephysTimeRmsAP.rms.npy'); L = 0 if ns <= NB else -(-(ns - NB) // (NB - 2048))
     if rms.shape != (L + 1, nsites): bad.append(('rms shape', rms.shape, L + 1))
 print(bad)
